@@ -103,7 +103,9 @@ def _linktest_placements(received):
                 yield cand
 
 
-def run_one(devs, budgets, sizes=None, mode="server", via="conn", fin=False, reconnect=False, late_read=False, linktest=False):
+def run_one(devs, budgets, sizes=None, mode="server", via="conn", fin=False, reconnect=False, late_read=False, linktest=False, twin=False, menu="full"):
+    if twin:
+        return run_twin(devs, budgets, sizes=sizes, via=via, menu=menu)
     box = {}
 
     def driver(s):
@@ -251,6 +253,98 @@ def run_one(devs, budgets, sizes=None, mode="server", via="conn", fin=False, rec
     return res
 
 
+def run_twin(devs, budgets, sizes=None, via="proto", menu="full"):
+    """The peer drops connection 1 and comes back at once; over connection 2 two application threads send one message each while the
+    socket takes them in pieces.  Scheduling delays are offered from the moment the peer drops connection 1 (the threads of the old
+    connection are still winding down when the new one is set up), environment answers during the two sends.  Whatever thread of the
+    library writes, each message reported as sent must stand in the stream in one piece (either order)."""
+    box = {}
+
+    def driver(s):
+        k = vnet.kernel()
+        s.frozen = True
+        settings = secsgem.hsms.HsmsSettings(connect_mode=secsgem.hsms.HsmsConnectMode.PASSIVE, address="10.0.0.1", port=5000)
+        proto = secsgem.hsms.HsmsProtocol(settings)
+        conn = proto._connection
+        proto.enable()
+        s.block(lambda: ("10.0.0.1", 5000) in k.listeners and k.listeners[("10.0.0.1", 5000)].state == "listening", s.clock + 5, "wait listen")
+        peer = vnet.peer_connect("10.0.0.1", 5000)
+        if peer is None:
+            box["harness"] = "could not connect"
+            return
+        s.block(lambda: conn.connected and getattr(conn, "_thread_running", True), s.clock + 5, "wait connected")
+        s.settle()
+        s.frozen = False
+        peer.close()
+        s.block(lambda: not conn.connected and ("10.0.0.1", 5000) in k.listeners and k.listeners[("10.0.0.1", 5000)].state == "listening",
+                s.clock + 30, "wait re-listen")
+        peer = vnet.peer_connect("10.0.0.1", 5000)
+        if peer is None:
+            box["harness"] = "could not reconnect"
+            return
+        s.block(lambda: conn.connected and getattr(conn, "_thread_running", True), s.clock + 5, "wait connected again")
+        base = len(peer.rx)
+        k.send_menu = True
+        k.select_menu = True
+        if menu == "short":
+            k.send_opts = ("all", "one")  # every send call takes everything or a single byte (select may still answer "not writable yet")
+        msgs, results = [], [None] * len(sizes)
+        for i, n in enumerate(sizes):
+            hdr = secsgem.hsms.HsmsStreamFunctionHeader(0x100 + i, 9, 1, False, 0)
+            m = secsgem.hsms.HsmsMessage(hdr, payload(i, n))
+            msgs.append((m, b"".join(bytes(b.encode()) for b in m.blocks)))
+
+        def send(i):
+            try:
+                results[i] = proto.send_message(msgs[i][0])
+            except Exception as exc:  # noqa: BLE001
+                if isinstance(exc, vrt.Divergence):
+                    raise
+                results[i] = f"raised {exc!r}"
+
+        others = [vrt.Thread(target=send, args=(i,), name=f"app-sender-{i}") for i in range(1, len(sizes))]
+        for t in others:
+            t.start()
+        send(0)
+        for t in others:
+            t.join()
+        k.send_menu = False
+        k.select_menu = False
+        s.settle()
+        box["results"] = results
+        box["msgs"] = [w for _m, w in msgs]
+        box["received"] = bytes(peer.rx[base:])
+        peer.close()
+        proto.disable()
+
+    sched = vrt.run(driver, devs, budgets, max_steps=300000, max_time=600.0, line_points=False)
+    res = {"trace": sched.trace, "v": []}
+    case = {"sizes": sizes, "mode": "server", "via": via, "twin": True, "menu": menu}
+    if sched.harness_failure or sched.driver_exception or box.get("harness"):
+        res["harness"] = (sched.harness_failure or sched.driver_exception or box.get("harness"))[-1000:]
+        res["obs"] = None
+        return res
+    if "results" not in box:
+        res["v"].append((f"C10|twin|send-did-not-return|{sched.outcome}", {"case": case, "info": sched.deadlock_info}))
+        res["obs"] = sched.outcome
+        return res
+    results, received, msgs = box["results"], box["received"], box["msgs"]
+    import itertools  # noqa: PLC0415
+
+    bad = None
+    for order in itertools.permutations(range(len(msgs))):
+        bad = _placement([msgs[i] for i in order], [results[i] for i in order], received, via)
+        if bad is None:
+            break
+    res["obs"] = {"results": [r if isinstance(r, bool) else "raised" for r in results], "received": len(received)}
+    if bad is not None:
+        res["v"].append((f"C10|twin|{bad[0]}", {"case": case, "results": [str(r) for r in results], "received": received.hex()[:400],
+                                                "messages": [m.hex() for m in msgs]}))
+    if sched.outcome != "done":
+        res["v"].append((f"C10|twin|execution-{sched.outcome}", {"case": case, "info": sched.deadlock_info}))
+    return res
+
+
 def configs(thorough):
     out = []
     for sizes in ([1], [2], [3], [17], [3, 17], [17, 1], [2, 2]):
@@ -314,6 +408,19 @@ def run(ctx):
         parts.append({"cfg": cfg, "executions": st["executions"], "outcomes": st["distinct_outcomes"], "levels_completed": st["levels_completed"]})
         tot_exec += st["executions"]
         nontrivial += st["executions"] - 1
+    # the peer comes back while the threads of the old connection wind down, then two application threads send over the new connection
+    twins = [({"sizes": [17, 9], "via": "proto", "twin": True, "menu": "short"}, {"env": 2, "sched": 2})]
+    if ctx.thorough:
+        twins += [({"sizes": [17, 9], "via": "proto", "twin": True, "menu": "full"}, {"env": 2, "sched": 2}),
+                  ({"sizes": [17, 9], "via": "proto", "twin": True, "menu": "short"}, {"env": 2, "sched": 3})]
+    for cfg, bud in twins:
+        st = explore.explore(ctx, run_one, bud, f"c10-twin-{cfg['sizes']}", opts=cfg, chunk=8)
+        parts.append({"cfg": cfg, "budgets": bud, "executions": st["executions"], "outcomes": st["distinct_outcomes"],
+                      "levels_completed": st["levels_completed"]})
+        tot_exec += st["executions"]
+        nontrivial += st["executions"] - 1
+        if st["levels_completed"] < sum(bud.values()):
+            ctx.exhaustive = False
     ctx.setcov("evaluations", tot_exec)
     ctx.setcov("distinct_nontrivial", nontrivial)
     ctx.setcov("rule", "each execution = one assignment of environment answers (<= F deviations from 'everything accepted at once') to the "
@@ -328,7 +435,7 @@ def replay(ctx, detail):
     case = detail["case"]
     devs = {int(k): v for k, v in case.get("devs", {}).items()}
     r = run_one(devs, case.get("budgets", {}), sizes=case["sizes"], mode=case["mode"], via=case["via"], fin=case.get("fin", False),
-                reconnect=case.get("reconnect", False), late_read=case.get("late_read", False), linktest=case.get("linktest", False))
+                reconnect=case.get("reconnect", False), late_read=case.get("late_read", False), linktest=case.get("linktest", False), twin=case.get("twin", False), menu=case.get("menu", "full"))
     print("replayed:", r.get("obs"))
     ctx.evaluations += 1
     for sig, d in r["v"]:
